@@ -73,3 +73,50 @@ func runEuclidShapes() {
 		})
 	flush(classCount(all))
 }
+
+// runCosetErrors: 3 (5, 15, 17) damaged codewords of one block at block positions p, p+85, p+170
+// (p+51.., p+17.., p+15..): their locators are a coset of roots of unity and the error-locator
+// polynomial has a single non-constant term, whatever the damage values are. Only blocks of at
+// least 171 codewords can hold such a pattern - the Data Matrix sizes from 88x88 up; the longest QR
+// block has 153 codewords. Every such block of every symbol, three start positions, two damage
+// value sets, the other blocks undamaged.
+func runCosetErrors() {
+	all := append(mainQR(), dmSyms...)
+	type job struct {
+		s    *symbol
+		b, e int
+	}
+	var jobs []job
+	for _, s := range all {
+		for b, ps := range s.blocks {
+			for _, e := range []int{3, 5, 15, 17} {
+				if (e-1)*(255/e)+1 <= len(ps) && e <= s.t() {
+					jobs = append(jobs, job{s, b, e})
+				}
+			}
+		}
+	}
+	chk.Range(fmt.Sprintf("e = 3, 5, 15, 17 damaged codewords of ONE block at spacing 255/e (locator polynomial 1 + c*x^e): every block long enough (171 / 205 / 239 / 241 codewords: Data Matrix 88x88 and larger) x start positions {0, 1, last possible} x 2 damage value sets [%d block cases]", len(jobs)), len(jobs),
+		func(i int) string { return fmt.Sprint(jobs[i].s.name(), " block ", jobs[i].b, " e=", jobs[i].e) },
+		func(l *mc.Local, i int) {
+			j := jobs[i]
+			ps := j.s.blocks[j.b]
+			sp := 255 / j.e
+			last := len(ps) - 1 - (j.e-1)*sp
+			for pi, p0 := range []int{0, 1, last} {
+				if p0 > last || (pi > 0 && p0 == 0) {
+					continue
+				}
+				for m := 0; m < 2; m++ {
+					f := &fault{}
+					for q := 0; q < j.e; q++ {
+						f.CW = append(f.CW, ps[p0+q*sp])
+						f.XOR = append(f.XOR, []int{0x01, 1 + (q*37+p0*11+5)%255}[m])
+					}
+					try(l, j.s, f, j.s.Kind+"/coset-errors", "C05/"+j.s.Kind+"/%scoset-errors", "exact", int64(j.b*1000+j.e*10+pi*2+m))
+					l.Count("coset_error_cases", 1)
+				}
+			}
+		})
+	flush(classCount(all))
+}
